@@ -35,6 +35,9 @@ def one(sid):
         checks = sorted(set([meta['breaks_property']] + list(meta.get('checks_run', {}).keys())))
         caught = {}
         for c in checks:
+            if CLEAN.get(c, 0) != 0:
+                caught[c] = 'unchanged tree rc=%d' % CLEAN[c]       # (not silent on the unchanged tree: decides nothing)
+                continue
             o = sh('cd /verif && VERIF_REPO=%s ./check %s --tier quick' % (wt, c))
             caught[c] = o.returncode
         sh('git -C %s checkout -- .' % wt)
@@ -52,6 +55,17 @@ def one(sid):
 
 
 ids = sys.argv[1:] or sorted(x for x in os.listdir(ROOT) if os.path.exists(os.path.join(ROOT, x, 'meta.json')))
+# the checks involved must be silent on the unchanged tree first (cached per check, /repo HEAD and vmon sources)
+sys.path.insert(0, os.path.dirname(os.path.abspath(__file__)))
+from cleanrc import clean_rc
+needed = set()
+for sid_ in ids:
+    m_ = json.load(open(os.path.join(ROOT, sid_, 'meta.json')))
+    needed |= set([m_['breaks_property']] + list(m_.get('checks_run', {}).keys()))
+CLEAN = {c: clean_rc(c) for c in sorted(needed)}
+for c, rc_ in CLEAN.items():
+    if rc_ != 0:
+        print('check %s exits %d on the unchanged tree: not used' % (c, rc_), flush=True)
 bad = 0
 with ThreadPoolExecutor(max_workers=4) as ex:
     for sid, status, info in ex.map(one, ids):
